@@ -187,6 +187,7 @@ def to_coq(K, m, spreads, order, draws, labels):
 def run(ctx):
     rng = np.random.default_rng(ctx.seed)
     ctx.proof_layer(allowed_axioms=(), coq_deps=["Corr/RunRepop"])
+    core.note_drift(ctx, ANCHORS)
     cases = gen(ctx, rng)
     if not ctx.thorough:
         ctx.notes["exhaustive_subdomain"] = "K<=4 all size vectors 0..5, K=5 all vectors with an under-populated cluster and half of the others (m=1)"
